@@ -4,14 +4,16 @@
 (* minor.py:57-74).                                                         *)
 (*                                                                          *)
 (* Abstract evidence: a sequence of site records                            *)
-(*   [pos, ops: Seq([op, good, low, ins, var, tab])]                        *)
+(*   [pos, ops: Seq([op, good, low, ins, var, tab, elig])]                  *)
 (* `good' / `low' = number of observations of that (site, op) that meet /   *)
 (* do not meet BOTH quality thresholds (base quality >= min_quality and     *)
 (* mapping quality >= min_mapq);  `ins' marks insertions (they do not count *)
 (* towards the depth of a site);  `var' = index of the catalogued variant   *)
 (* (0 if none; the reference op "_" has var = 0);  `tab' = <<>> or          *)
 (* <<off, on>> = entry of the indel-realignment table, which overrides the  *)
-(* pileup counts of that op and is not subject to the quality filter.       *)
+(* pileup counts of that op and is not subject to the quality filter;      *)
+(* `elig' = FALSE for ops a stage does not consider at all (minor stage:    *)
+(* non-catalogued changes in introns), TRUE otherwise.                      *)
 (*                                                                          *)
 (* Parameters (record p): thrN/thrD = single-copy fraction threshold,       *)
 (* minCov10 = 10 * min_coverage, cnMax.                                     *)
@@ -34,7 +36,7 @@ MinCovOK(p, o) == 10 * QCov(o) >= p.minCov10
 ThrMax(p, s, o) == Cmp3(QCov(o) * p.thrD * p.cnMax, QTotal(s, o) * p.thrN)
 ThrCn(p, s, o, cn) == Cmp3(QCov(o) * p.thrD * (2 * cn + 1), 2 * QTotal(s, o) * p.thrN)
 Passes3(p, s, o, cn) ==
-    IF ~QPresent(o) \/ ~MinCovOK(p, o) THEN "no"
+    IF ~o.elig \/ ~QPresent(o) \/ ~MinCovOK(p, o) THEN "no"
     ELSE IF o.op = "_" THEN ThrMax(p, s, o)
     ELSE And3(ThrMax(p, s, o), ThrCn(p, s, o, cn))
 (* an exact tie `cov = total*thr/X` passes in exact arithmetic; the code's floating-point     *)
